@@ -46,6 +46,8 @@ class Oracle(object):
         raise Inconclusive("solver_exception_under_forced_arpack_failure")
       if name.startswith("SDML") and isinstance(exc, RuntimeError):
         raise Inconclusive("sdml_runtime_error")      # C13's clause
+      if live.get("fault_fired"):
+        return
       if _stale_params(h, D):
         return          # params from another dataset: the plan's own failing fit
       raise Violation("fit_raises", "cls=%s,exc=%s" % (name, et),
